@@ -12,7 +12,7 @@ META = {
                  "before delegating; R13.3 compressed writers: close (finish stream) -> inner rotate -> open (re-init); R13.4 leaf "
                  "writers: close -> assign new target -> open, nothing writes the old handle after close; R13.5 no override of "
                  "rotate_output can return without having rotated (silent no-op) — it rotates or throws on every path; R13.6 the "
-                 "header of each output serialises the current file preamble.",
+                 "header of each output serialises the current file preamble. R13.3 also: the compressors are never re-initialised with a partial reset (deflateResetKeep and the like).",
     "explanation": "must-precede / who-may-call rules over the rotate path (8 functions incl. template instantiations from the "
                    "verif-owned instantiation TU). 'Records in all outputs = records buffered' as an equality over histories is not "
                    "decided.",
